@@ -385,6 +385,61 @@ def lost_parity_chain(exe, root, seed, stats):
         return [('(%s) [lost-parity-chain] %s/big not restored but fix exits 0' % (cfg, d), hist)]
     return None
 
+def rehash_chain(exe, root, seed, stats):
+    """pending blocks while a hash migration is in progress: F synced with the previous hash function, `rehash` scheduled
+    (nothing converted yet, or only part of the array by a partial scrub), F rewritten in place, a sync that does not reach
+    its stripes (range) or is killed after the content save, then F lost.  The past hash of the pending blocks is in the
+    PREVIOUS hash function and seed; the parity holds V0: fix must give V1 or fail"""
+    rng = e2e.Rng(seed)
+    a = e2e.Arr(root, exe, ndisks=2 + rng.below(2), nparity=2 + rng.below(2), ncontent=1, hashsize=rng.choice([16, 16, 8]))
+    s = sim.Sim(a, rng.fork(), weird_names=False)
+    bs = a.block
+    lead = 1 + rng.below(2)
+    for d in a.disks:
+        a.write(d, 'A', rng.bytes(bs * lead - rng.below(50)), s.tick())
+    nb = 1 + rng.below(4)
+    size = nb * bs - rng.below(2) * (1 + rng.below(100))
+    V0, V1 = rng.bytes(size), rng.bytes(size)
+    a.write('d1', 'F', V0, s.tick())
+    force = rng.choice(['--test-force-murmur3', '--test-force-spooky2'])
+    if s.sync(force).rc != 0:
+        a.destroy(); return None
+    if a.cmd('rehash').rc != 0:
+        a.destroy(); return None
+    s.log('rehash scheduled')
+    if rng.chance(1, 3):
+        a.cmd('scrub', '-p', '30', '-o', '0'); s.log('scrub -p 30 (part of the array converted)')
+    with open(a.path('d1', 'F'), 'r+b') as f: f.write(V1)
+    t = s.tick(); os.utime(a.path('d1', 'F'), ns=(t, t)); s.log('d1/F rewritten in place (V1)')
+    how = rng.choice(['range', 'kill'])
+    if how == 'range': s.run('sync', '-B', str(lead))
+    else: s.run('sync', '--test-kill-after-sync')
+    if not os.path.exists(a.contents[0]):
+        a.destroy(); return None
+    dec = fx.decode(a)
+    rec = [f for f in dec.files if f['sub'] == b'F' and dec.maps[f['mapping']][0] == b'd1'] if dec.ok else []
+    if not rec or rec[0]['size'] != size:
+        a.destroy(); return None
+    kinds = ''.join(sorted(set(b[1] for b in rec[0]['blocks'])))
+    stats['rehash_chain'] = stats.get('rehash_chain', 0) + 1
+    stats['rehash_chain_kinds'] = stats.get('rehash_chain_kinds', {}); stats['rehash_chain_kinds'][how + ':' + kinds] = stats['rehash_chain_kinds'].get(how + ':' + kinds, 0) + 1
+    cfg = 'rehash-chain ndisks=%d nparity=%d hashsize=%d blocks=%d first-hash=%s how=%s seed=%d' % (a.ndisks, a.nparity, a.hashsize, nb, force.split('-')[-1], how, seed)
+    p = a.path('d1', 'F')
+    os.unlink(p); s.log('d1/F lost')
+    r = a.cmd('fix')
+    got = open(p, 'rb').read() if os.path.isfile(p) else None
+    rec_tag = any(t.startswith('status:recovered:d1:F') for t in r.tags)
+    hist = '\n'.join(s.history)
+    a.destroy()
+    if got is not None and got != V1:
+        # killed after the parity update: the parity holds V1 and V1 is the right answer; anything else is wrong
+        which = 'V0 (the previous version)' if got == V0 else 'other bytes'
+        return [('(%s) [rehash-chain] fix leaves d1/F with %s instead of the recorded version, exit %d, reported recovered=%s (recorded states %s)' % (cfg, which, r.rc, rec_tag, kinds),
+                 hist + '\n' + '\n'.join(t for t in r.tags if t.split(':')[0] in ('entry', 'hash_unknown', 'fixed', 'status', 'summary', 'unrecoverable'))[:3000])]
+    if got is None and r.rc == 0:
+        return [('(%s) [rehash-chain] d1/F not restored but fix exits 0' % cfg, hist)]
+    return None
+
 def directed_known(exe, root, which):
     """the two hand-derived counter-histories (DESIGN section 7), replayed on the binary.
     Returns (violated: bool, text)"""
@@ -443,7 +498,7 @@ def main(tier, seed):
     def job2(i):
         return rep_chain(exe, os.path.join(vlib.scratch(), 'rc%d' % i), seed * 100000 + 35000 + i, stats)
     with ThreadPoolExecutor(vlib.NCPU) as ex:
-        res = list(ex.map(job, range(n))) + list(ex.map(job2, range(nrc))) + list(ex.map(lambda i: zero_chain(exe, os.path.join(vlib.scratch(), 'zc%d' % i), seed * 100000 + 36000 + i, stats), range(nrc))) + list(ex.map(lambda i: lost_parity_chain(exe, os.path.join(vlib.scratch(), 'lp%d' % i), seed * 100000 + 37000 + i, stats), range(nrc)))
+        res = list(ex.map(job, range(n))) + list(ex.map(job2, range(nrc))) + list(ex.map(lambda i: zero_chain(exe, os.path.join(vlib.scratch(), 'zc%d' % i), seed * 100000 + 36000 + i, stats), range(nrc))) + list(ex.map(lambda i: lost_parity_chain(exe, os.path.join(vlib.scratch(), 'lp%d' % i), seed * 100000 + 37000 + i, stats), range(nrc))) + list(ex.map(lambda i: rehash_chain(exe, os.path.join(vlib.scratch(), 'rh%d' % i), seed * 100000 + 38000 + i, stats), range(nrc)))
     k = 0
     for r in res:
         if r:
@@ -455,7 +510,7 @@ def main(tier, seed):
             chk.violation('C05 static obligation failed: ' + o[0], o[0] + '\n' + o[2], False, 'static')
     chk.evaluations = stats['fixes']
     chk.distinct = stats['fixes']
-    chk.rule = ('%d seeded arrays with histories of complete/partial/-S -B/killed/pre-hash syncs, syncs during which a file is moved away or appended (skipped stripes), copy-detected files; then damage on any number of devices (deleted, truncated files, silently changed blocks that carry a recorded hash, lost disks, lost or partly stale parity), an unknown file added; fix with -d / -f dir / -m / no filter; oracle: every selected recorded file has the recorded bytes or is reported unrecoverable with failing exit and summary; nothing reported recovered with other bytes; unselected and unknown files byte- and mtime-identical; plus %d rep-chain histories (a synced file becomes REP by copy detection or pre-hash while a partial sync does not reach it, is rewritten again with another partial sync, then lost: fix must return the recorded version or fail) and as many zero-chain histories (a new file synced into unused parity by a sync killed before the content save, rewritten, its stripes skipped by a sync during which it changes, then lost) and as many lost-parity-chain histories (a file rewritten in place or created, the sync killed or not reaching it, then the file and EVERY parity file lost: fix recreates the parity and must not take what it has just created for parity)' % (n, nrc))
+    chk.rule = ('%d seeded arrays with histories of complete/partial/-S -B/killed/pre-hash syncs, syncs during which a file is moved away or appended (skipped stripes), copy-detected files; then damage on any number of devices (deleted, truncated files, silently changed blocks that carry a recorded hash, lost disks, lost or partly stale parity), an unknown file added; fix with -d / -f dir / -m / no filter; oracle: every selected recorded file has the recorded bytes or is reported unrecoverable with failing exit and summary; nothing reported recovered with other bytes; unselected and unknown files byte- and mtime-identical; plus %d rep-chain histories (a synced file becomes REP by copy detection or pre-hash while a partial sync does not reach it, is rewritten again with another partial sync, then lost: fix must return the recorded version or fail) and as many zero-chain histories (a new file synced into unused parity by a sync killed before the content save, rewritten, its stripes skipped by a sync during which it changes, then lost) and as many lost-parity-chain histories (a file rewritten in place or created, the sync killed or not reaching it, then the file and EVERY parity file lost: fix recreates the parity and must not take what it has just created for parity) and as many rehash-chain histories (a file rewritten in place while a hash migration is pending, the sync not reaching it, the file lost: the past hash of its pending blocks is in the previous hash function)' % (n, nrc))
     chk.samples = [dict(stats)]
     chk.corr['E2E-FIX'] = dict(stats)
     chk.finish()
